@@ -40,7 +40,7 @@ CHECKS = {
          "DESIGN.md §4 C09"),
  "C20": ("bounded-exhaustive enumeration of request header lists over a valid/invalid vocabulary, each executed on the real ServeConn (ELX) between two well-formed neighbours, judged by an RFC 7540 8.1.2 predicate",
          "Every subset of <= 2 (quick) / <= 3 (thorough) of 28 vocabulary items applied to a base request x body {0,5} x trailers {none, valid, with pseudo-header} x position {first, middle, last}: well-formed <=> dispatched exactly once and intact; malformed => never dispatched and only that stream gets RST_STREAM(PROTOCOL_ERROR) or a 4xx; neighbours dispatched and answered intact; no GOAWAY.",
-         "ref/msg.go is the RFC 7540 8.1.2 predicate restricted to the vocabulary (no CONNECT, no token grammar). Blocks are encoded without dynamic-table references (HPACK accounting of rejected blocks is C09's). The client half is covered once the client harness exists (same check id).",
+         "ref/msg.go is the RFC 7540 8.1.2 predicate restricted to the vocabulary (no CONNECT, no token grammar). Blocks are encoded without dynamic-table references (HPACK accounting of rejected blocks is C09's). Client half (checks/c20client.go): every subset of <= 2 / <= 3 of 27 response vocabulary items (:status dropped / duplicated / after a regular field / 20, 2000, abc, 2x0, empty, 404; request pseudo-headers; upper case; connection-specific fields; content-length forms; repeated fields; set-cookie) x body {0,5} x trailers {none, valid, with :status} x position among three concurrent requests, plus every cut offset of the block and dynamic-table encodings: well-formed <=> delivered intact; malformed => that request alone fails, neighbours intact, connection kept. An overflowing content-length may go either way.",
          "DESIGN.md §4 C20"),
  "C06": ("exhaustive event-sequence exploration (ELX) of window grants, SETTINGS changes, resets and handler completions on the real ServeConn against the peer's authoritative flow-control ledger",
          "Peer INITIAL_WINDOW_SIZE in {0,1,5}; a prelude response leaves the connection window at 5 bytes so both windows bind with tiny numbers; 6 (quick) / 10 (thorough) configurations of 1-3 streams with response sizes from {0,1,3,6,16384,16385,40000}, buffered or streamed; every sequence to depth 4 / 5 over {handler returns, stream WINDOW_UPDATE 1|2|big, connection WINDOW_UPDATE 1|3|big, SETTINGS_INITIAL_WINDOW_SIZE 0|1|4|70000 (negative windows), RST_STREAM}, each followed by a closing phase that grants everything. Oracle: ledger never negative at a DATA frame, no DATA above 16384, never stuck with both windows positive, every response complete with END_STREAM once.",
